@@ -778,6 +778,7 @@ def check_store(res, rng, quick):
         gc.collect()
         s = StoreSession()
         base = list(BDDNode.nodes())         # whatever other live objects still hold: adopted and kept alive
+        b = None
         for b in base:
             s.adopt(b)
         s.held += [b for b in base if isinstance(b, BDDNonTerminalNode)]
